@@ -1044,27 +1044,13 @@ theorem removed_tree_consistent (s : Store) (h : Inv s) (l i t : Nat) (hl : l < 
   have v2 : valid s (.remove l t) = true := by simp [valid, inRange, owner, hl]
   exact ⟨⟨rfl, rfl⟩, (closed_step_partial s _ h v1 rfl).treeOk t, (closed_step_partial s _ h v2 rfl).treeOk t⟩
 
-theorem require_of_lookup {s : Store} {n : Nat} {cs : Bool} {l : String} {x : Nat}
-    (h : lookupFirst s n cs l = some x) : require s n cs l = (s, x) := by
-  unfold require; rw [h]
-
 /-- every member of namespace `n` is an already allocated taxon -/
 def FreshNs (s : Store) (n : Nat) : Prop := ∀ x, x ∈ mem s n → x < s.nTaxa
 
-/-- PARTIAL (clause b, one item): the taxon an item is moved to by label resolution in namespace `n` is a member of `n`
-and carries the item's label up to the case rule.  Stated for `require` (the step `reconstruct_taxon_namespace` performs
-for an item not yet in the memo); not lifted to whole `mapTaxa`/`mapKeys` runs with a memo. -/
-theorem migrate_label_functional_partial (s : Store) (n : Nat) (cs : Bool) (lbl : String) :
-    (require s n cs lbl).2 ∈ mem (require s n cs lbl).1 n
-    ∧ keyOf cs ((require s n cs lbl).1.label (require s n cs lbl).2) = keyOf cs lbl := by
-  refine ⟨mem_require s n cs lbl, ?_⟩
-  unfold require
-  split
-  · next x hx =>
-    unfold lookupFirst at hx
-    have := List.find?_some hx
-    simpa using this
-  · simp [newTaxon, upd]
+namespace Aux
+theorem require_of_lookup {s : Store} {n : Nat} {cs : Bool} {l : String} {x : Nat}
+    (h : lookupFirst s n cs l = some x) : require s n cs l = (s, x) := by
+  unfold require; rw [h]
 
 theorem require_label_stable (s : Store) (n : Nat) (cs : Bool) (lbl : String) (y : Nat) (hy : y < s.nTaxa) :
     (require s n cs lbl).1.label y = s.label y := by
@@ -1084,6 +1070,24 @@ theorem require_fresh (s : Store) (n : Nat) (cs : Bool) (lbl : String) (hf : Fre
     rcases hx with hx | hx
     · exact Nat.lt_succ_of_lt (hf x hx)
     · omega
+
+end Aux
+
+
+/-- PARTIAL (clause b, one item): the taxon an item is moved to by label resolution in namespace `n` is a member of `n`
+and carries the item's label up to the case rule.  Stated for `require` (the step `reconstruct_taxon_namespace` performs
+for an item not yet in the memo); not lifted to whole `mapTaxa`/`mapKeys` runs with a memo. -/
+theorem migrate_label_functional_partial (s : Store) (n : Nat) (cs : Bool) (lbl : String) :
+    (require s n cs lbl).2 ∈ mem (require s n cs lbl).1 n
+    ∧ keyOf cs ((require s n cs lbl).1.label (require s n cs lbl).2) = keyOf cs lbl := by
+  refine ⟨mem_require s n cs lbl, ?_⟩
+  unfold require
+  split
+  · next x hx =>
+    unfold lookupFirst at hx
+    have := List.find?_some hx
+    simpa using this
+  · simp [newTaxon, upd]
 
 /-- PARTIAL (clause b, two items, "equal labels end up on one taxon"): two successive label resolutions in the same
 namespace with labels that are equal under the case rule deliver the same taxon (no duplicate is created) -/
